@@ -46,6 +46,13 @@ CHECKS["C17"] = ("runtime monitor over every diagnostic of all-codes programs: f
   "Every diagnostic produced on generated programs covering all 16 codes (default, scan-tests and exclude-paths configurations) is checked against reference tables written from the book (code table, analyzer <-> category, documentation page per category), its position must lie in a non-excluded file of the package being analysed and its excerpt must show the reported line; a sample of diagnostics per code (all those on the last declaration of a file first) is re-run with '// @ignore CODE' appended and the whole result compared with the reference model; the text-mode exit status must be non-zero exactly when something is printed.",
   SITE_NOTE, "DESIGN.md §3 C17")
 
+CHECKS["C06"] = ("runtime monitor: normalised diagnostic sets of one module under 4 drivers / run sets + gob round trip of every exported fact observed at the Analyzer.Run seam",
+  "Generated import DAGs (declaring packages incl. byte-identical twin declarations as in api/v1 vs api/v2, using packages, a transit package, an unrelated annotated package) are analysed by standalone ./..., standalone with only leaf packages named, standalone with random package subsets, go vet -vettool (facts on disk), and the in-process x/tools checker with/without its fact sanity check and sequentially; all per-package diagnostic sets must be equal, every exported fact must survive gob and equal the reader's result, and toggling the annotations of a package must not change packages that do not import it.",
+  "trusts go vet/unitchecker and the x/tools checker; instrumentation wraps the exported analyzers inside the harness process only", "DESIGN.md §3 C06")
+CHECKS["C09"] = ("runtime monitor: diagnostic count on unannotated real-world corpora and on near-miss-salted generated programs must be zero",
+  "(a) Packages of the Go standard library and of the repository's dependencies that pass a precondition scan are analysed by the real binary under 2 (quick) / 3 (thorough) configurations; (b) generated multi-package programs whose every annotation is replaced by one of 12 near-miss shapes (mid-sentence, block comment, other letter case, longer word, commented-out, detached, ...) while all would-be violations stay. Any diagnostic is a violation.",
+  "precondition scanner of the harness; module-cache corpora are analysed with -test=false because their test dependencies are not in the offline cache", "DESIGN.md §3 C09")
+
 PENDING_REASON = "monitor for this property is still under construction in this round (designed in DESIGN.md §3; not claimed until its check is silent on the unchanged tree)"
 def main():
     checks = []
